@@ -10,6 +10,10 @@ package main
 //   pqwait                         wait until no background persistent-query write (search.writePqmrFilesWrapper) is running,
 //                                  then hand the queued back-fill requests to the writer (VerifDrainPqsRequests); prints nothing
 //   batch <hexjson> <hexjson> ...  one ProcessIndexRequestPle call
+//   stream <n>                     the following batches go to ingest stream / shard n of the index (default 0): the stream id
+//                                  utils.CreateStreamId would give with MAX_SHARDS > n, handed to ProcessIndexRequestPle in its
+//                                  index → stream-id cache; every stream of an index has its own segstore (own open segment,
+//                                  rotated on its own)
 //   flush                          flush every WIP buffer to its segment file
 //   rotate                         force segment rotation
 //   waitsync                       (restart on an existing dir, env VERIF_WAIT_SYNC=1) wait for the startup sync
@@ -35,6 +39,7 @@ import (
 	"github.com/siglens/siglens/pkg/config"
 	eswriter "github.com/siglens/siglens/pkg/es/writer"
 	"github.com/siglens/siglens/pkg/segment/writer"
+	segutils "github.com/siglens/siglens/pkg/utils"
 )
 
 // e2ePqWait: the raw search of a rotated segment starts `go writePqmrFilesWrapper(…)` BEFORE the query returns; the
@@ -114,6 +119,7 @@ func e2eWorkerMain() {
 	tsKey := config.GetTimeStampKey()
 	var stack [64]byte
 	qid := uint64(1)
+	stream := 0
 	for in.Scan() {
 		f := strings.Fields(in.Text())
 		if len(f) == 0 {
@@ -133,6 +139,8 @@ func e2eWorkerMain() {
 			if f[1] == "pqdrain" {
 				e2ePqDrain = f[2] == "1"
 			}
+		case "stream":
+			stream, _ = strconv.Atoi(f[1])
 		case "pqwait":
 			e2ePqWait()
 		case "pqstate":
@@ -157,7 +165,14 @@ func e2eWorkerMain() {
 				}
 				ples = append(ples, ple)
 			}
-			err := eswriter.ProcessIndexRequestPle(now, idx, false, map[string]string{}, 0, 0, map[string]string{}, map[uint64]string{}, stack[:], ples)
+			streamCache := map[string]string{}
+			if stream > 0 {
+				// CreateStreamId = "<shard>-<org>-<hash of the index name>" with shard = rand.Intn(MAX_SHARDS) (0 today)
+				if sid := segutils.CreateStreamId(idx, 0); strings.HasPrefix(sid, "0-") {
+					streamCache[idx] = strconv.Itoa(stream) + sid[1:]
+				}
+			}
+			err := eswriter.ProcessIndexRequestPle(now, idx, false, map[string]string{}, 0, 0, streamCache, map[uint64]string{}, stack[:], ples)
 			if err != nil {
 				fmt.Fprintf(os.Stderr, "ProcessIndexRequestPle: %v\n", err)
 			}
